@@ -186,6 +186,34 @@ func HealthySessions(rng *rand.Rand, thorough bool) []Session {
 		[]DOp{{Op: "exec", R: "r2"}, {Op: "exec", R: "r1", From: true, Reissue: true}, {Op: "awaitexecs", N: 3}, {Op: "joinall"}, {Op: "mark", N: 1}, {Op: "close"}},
 		[]SOp{{Op: "expectws", R: "r2"}, {Op: "expectws", R: "r1"}, {Op: "done", R: "r1", X: 1}, {Op: "expectwsn", R: "r1", N: 2}, {Op: "doneifn", R: "r1", N: 2, X: 3},
 			{Op: "done", R: "r2", X: 2}, {Op: "expectdone"}}))
+	// An input that cannot be encoded (func, chan, complex, nested): Execute registers, starts the read
+	// loop, then fails in the CBOR encoder before a byte is written and takes its entry back. The
+	// connection stays healthy and the read loop stays alive with nothing pending: it ends on the
+	// server's end of stream, which the server only produces after client-done. The scripted server,
+	// like the real one, keeps its output open and silent until it has read client-done.
+	{
+		bad := func(r string, k int) DOp { return DOp{Op: "exec", R: r, Unenc: k} }
+		ok := func(r string) []DOp { return []DOp{{Op: "exec", R: r}, {Op: "join", R: r}} }
+		out = append(out, hs("unenc-close", 3,
+			[]DOp{bad("r1", 1), {Op: "join", R: "r1"}, {Op: "close"}},
+			[]SOp{{Op: "expectdonelong"}}))
+		out = append(out, hs("unenc-after-ok", 3,
+			append(ok("r1"), bad("r2", 2), DOp{Op: "join", R: "r2"}, DOp{Op: "close"}),
+			[]SOp{{Op: "expectws", R: "r1"}, {Op: "done", R: "r1", X: 1}, {Op: "expectdonelong"}}))
+		out = append(out, hs("unenc-twice", 3,
+			[]DOp{bad("r1", 3), {Op: "join", R: "r1"}, bad("r2", 4), {Op: "join", R: "r2"}, {Op: "close"}},
+			[]SOp{{Op: "expectdonelong"}}))
+		out = append(out, hs("unenc-then-ok", 3,
+			append([]DOp{bad("r1", 1), {Op: "join", R: "r1"}}, append(ok("r2"), DOp{Op: "close"})...),
+			[]SOp{{Op: "expectws", R: "r2"}, {Op: "done", R: "r2", X: 2}, {Op: "expectdonelong"}}))
+		out = append(out, hs("unenc-overlap", 3,
+			[]DOp{{Op: "exec", R: "r1"}, {Op: "awaitws", R: "r1"}, bad("r2", 1), {Op: "join", R: "r2"}, {Op: "mark", N: 1}, {Op: "joinall"},
+				bad("r3", 2), {Op: "join", R: "r3"}, {Op: "close"}},
+			[]SOp{{Op: "expectws", R: "r1"}, {Op: "expectmark", N: 1}, {Op: "done", R: "r1", X: 1}, {Op: "expectdonelong"}}))
+		out = append(out, hs("unenc-signals", 3,
+			[]DOp{{Op: "exec", R: "r1", To: true, From: true, Unenc: 1}, {Op: "join", R: "r1"}, {Op: "close"}},
+			[]SOp{{Op: "expectdonelong"}}))
+	}
 	// duplicate and blank run IDs
 	out = append(out, hs("duplicate-run", 3,
 		[]DOp{{Op: "exec", R: "r1"}, {Op: "await", N: 2}, {Op: "exec", R: "r1", To: true}, {Op: "join", R: "r1"}, {Op: "mark", N: 1}, {Op: "joinall"}, {Op: "close"}},
@@ -383,12 +411,42 @@ func FaultJobs(rng *rand.Rand, thorough bool) []FaultJob {
 		s.Name = fmt.Sprintf("f-version-%d", v)
 		out = append(out, FaultJob{Job{Session: s, Transport: tr(), WriteFailAfter: -1, TimeoutMs: 1500}, "c08-version"})
 	}
+	withHello := func(base Session, kind, name string) Session {
+		s := base
+		s.Srv = append([]SOp{}, base.Srv...)
+		for i := range s.Srv {
+			if s.Srv[i].Op == "hello" {
+				s.Srv[i].R = kind
+			}
+		}
+		s.Name = name
+		return s
+	}
+	// a schema that fails to unserialize, in every flavour: not a map at all; an undecodable default
+	// of a non-string property (step input, signal handler data, signal EMITTER data); a scope without
+	// its root object, with the root under another key, with a dangling reference - placed in an
+	// emitter's data schema and in an output schema
+	for _, k := range BadKinds {
+		for _, t := range []string{"pipe", "buf"} {
+			out = append(out, FaultJob{Job{Session: withHello(b0, k, "f-badschema-"+k), Transport: t, ChunkSeed: rng.Int63(), WriteFailAfter: -1, TimeoutMs: 1500}, "c08-schema"})
+		}
+	}
+	// two sessions in one process: first another client rejects a hello with an undecodable default,
+	// then this session - intact and under each fault kind - must behave as ever
 	{
-		s := b0
-		s.BadSchema = true
-		s.Name = "f-badschema"
-		out = append(out, FaultJob{Job{Session: s, Transport: "pipe", WriteFailAfter: -1, TimeoutMs: 1500}, "c08-schema"})
-		out = append(out, FaultJob{Job{Session: s, Transport: "buf", WriteFailAfter: -1, TimeoutMs: 1500}, "c08-schema"})
+		stream, bounds := Transcript(b0)
+		faults := []*Fault{nil, {Kind: "cut", Off: bounds[0] / 2}, {Kind: "cut", Off: bounds[1] - 2}, {Kind: "ioerr", Off: bounds[0] + 5, Val: 1},
+			{Kind: "xor", Off: bounds[0] + 2, Val: 0x80}, {Kind: "set", Off: len(stream) - 3, Val: 0xff}}
+		n2 := 0
+		for _, pre := range []string{"default-int", "default-bool", "emitter-default"} {
+			for _, f := range faults {
+				n2++
+				s := b0
+				s.Name = "f-second-session"
+				out = append(out, FaultJob{Job{Session: s, Transport: []string{"pipe", "buf"}[n2%2], ChunkSeed: rng.Int63(), WriteFailAfter: -1, TimeoutMs: 1500,
+					Fault: f, PreHello: pre}, "c08-twosessions"})
+			}
+		}
 	}
 	// the write side fails independently (server-to-client side healthy, or damaged as well)
 	bases := faultBases()
